@@ -102,6 +102,8 @@ Definition cell_eqb (a b : cell) : bool :=
   | CB x, CB y => Bool.eqb x y
   | _, _ => false
   end.
+(** pandas isna(): None or NaN *)
+Definition is_na (c : cell) : bool := match c with CNone => true | CF f => negb (PrimFloat.eqb f f) | _ => false end.
 Definition tbl := list (cell * list cell).
 Definition tbl_eqb (a b : tbl) : bool := list_eqb (fun x y => cell_eqb (fst x) (fst y) && list_eqb cell_eqb (snd x) (snd y)) a b.
 (** df.columns.get_loc(name): position of the (first) column with that label *)
@@ -155,8 +157,10 @@ Definition gmap_construct (auto_group : bool) (g : gmap) : gmap * option (list Z
   else (g, None).
 Fixpoint zuniq_sorted (l : list Z) : list Z :=
   match l with [] => [] | x :: t => match t with [] => [x] | y :: _ => if x =? y then zuniq_sorted t else x :: zuniq_sorted t end end.
+(** interp1d(x = phypos[mask], y = genpos[mask], assume_sorted = False) sorts its points by x (stable) *)
 Definition spline_y (g : gmap) : list (Z * list float) :=
-  map (fun c => (c, map snd (filter (fun p => fst p =? c) (combine (g_chr g) (g_gen g)))))
+  map (fun c => (c, map snd (isort (fun a b => fst a <=? fst b)
+                                   (map snd (filter (fun p => fst p =? c) (combine (g_chr g) (combine (g_pos g) (g_gen g))))))))
       (zuniq_sorted (isort Z.leb (g_chr g))).
 Definition gmap_from_pandas (ext : bool) (u : units) (with_name with_fn : bool) (auto_group : bool) (t : tbl)
   : option (gmap * option (list Z * list Z * list Z * list Z)) :=
@@ -214,7 +218,7 @@ Definition cm_from_pandas (grp_col : bool) (t : tbl) : option cmat :=
         let mat := transpose 0%float n cs in       (* cs is column-major: transpose gives the rows *)
         let grp := if grp_col then
                      match col_of (CS (zs "taxa_grp")) t with
-                     | Some g => if forallb (fun c => match c with CNone => true | _ => false end) g then None
+                     | Some g => if forallb is_na g then None
                                  else Some (map (fun c => match c with CI z => z | _ => -1 end) g)
                      | None => None
                      end
